@@ -1313,6 +1313,34 @@ fn slerp_float<T: Fl>(sub: &mut Sub, cfg: &Config, idx: u64) {
                     "{}: result {:?}: angle(from, r) = {:e} (expected {:e}), angle(r, to) = {:e} (expected {:e}), tolerance {:e}", inp(), r, a1, t * alpha, a2, (1.0 - t) * alpha, tol_a);
             }
         }
+        // extrapolation: the unclamped forms at factors outside [0, 1] continue the arc (rotation of
+        // from's direction by t*alpha in the plane of the two vectors) and the length keeps following
+        // the straight line through (0,|from|) and (1,|to|) -- "interpolates lengths linearly"
+        {
+            let fdir: Vec<f64> = fs.iter().map(|x| x / lf).collect();
+            let tdir: Vec<f64> = ts.iter().map(|x| x / lt).collect();
+            let c = alpha.cos();
+            // unit vector orthogonal to fdir in the plane, on to's side
+            let mut pdir: Vec<f64> = (0..3).map(|i| tdir[i] - c * fdir[i]).collect();
+            let pl = fnorm(&pdir);
+            for x in pdir.iter_mut() {
+                *x /= pl;
+            }
+            for t in [-0.5, 1.5, rng.f64_in(-1.0, 0.0), rng.f64_in(1.0, 2.0)] {
+                let t = T::of(t).f();
+                let len_exp = lf + (lt - lf) * t;
+                let expected: Vec<f64> = (0..3).map(|i| (fdir[i] * (t * alpha).cos() + pdir[i] * (t * alpha).sin()) * len_exp).collect();
+                let tol_x = 8.0 * tol * (1.0 + t.abs()) * (1.0 + (len_exp.abs() / scale));
+                let inp = || format!("from={:?} to={:?} factor={:e} outside [0,1] (|from| = {:e}, |to| = {:e}, alpha = {:e}, tolerance {:e})", fs, ts, t, lf, lt, alpha, tol_x);
+                for which in [0usize, 2] {
+                    let m = SLERP_APIS[which];
+                    let r = slerp_call::<T>(cx, which, vf, vt, T::of(t), &inp)?;
+                    let lr = fnorm(&r);
+                    ensure!(cx, (lr - len_exp.abs()).abs() <= tol_x, m, "extrapolated_length_not_linear", "{}: result {:?} has length {:e}, the line through the endpoint lengths gives {:e}", inp(), r, lr, len_exp);
+                    ensure!(cx, max_abs_diff(&r, &expected) <= tol_x, m, "extrapolated_point_off_the_arc", "{}: result {:?}, continuing the arc gives {:?}", inp(), r, expected);
+                }
+            }
+        }
         // clamped forms at factors outside [0, 1] and inside
         for t in [-0.5, 1.75, rng.f64_in(-2.0, 0.0), rng.f64_in(1.0, 3.0), rng.f64_in(0.0, 1.0)] {
             let t = T::of(t).f();
@@ -1533,7 +1561,7 @@ fn main() {
     }
     {
         let n = cfg.n(20_000, 2_000_000);
-        let proto = Sub::new("slerp_float", "Vec3<f32/f64>: from = random direction * length, to = direction rotated by alpha about a random axis * length, lengths 0.1..10, alpha uniform in (0.05, 3.0), plus pi/2 and near 0 / near pi; sin(alpha) < 1e-3 is ill_conditioned (inconclusive); factors 0, 1, 1/2 and two random in [0,1] through the inherent and the Slerp-trait slerp_unclamped: factor 0 -> from, 1 -> to, |result| = lerp(|from|, |to|, t), angle(from, result) = t alpha and angle(result, to) = (1-t) alpha; clamped forms (inherent and trait) at 5 factors in [-2, 3] equal slerp_unclamped at the clamped factor; tolerance 64 eps * max length * (1 + 1/sin alpha) (acute) or (1 + 1/sin^2 alpha) (obtuse)")
+        let proto = Sub::new("slerp_float", "Vec3<f32/f64>: from = random direction * length, to = direction rotated by alpha about a random axis * length, lengths 0.1..10, alpha uniform in (0.05, 3.0), plus pi/2 and near 0 / near pi; sin(alpha) < 1e-3 is ill_conditioned (inconclusive); factors 0, 1, 1/2 and two random in [0,1] through the inherent and the Slerp-trait slerp_unclamped: factor 0 -> from, 1 -> to, |result| = lerp(|from|, |to|, t), angle(from, result) = t alpha and angle(result, to) = (1-t) alpha; unclamped forms at 4 factors in [-1,0) u (1,2]: the point continues the arc and its length follows the line through the endpoint lengths; clamped forms (inherent and trait) at 5 factors in [-2, 3] equal slerp_unclamped at the clamped factor; tolerance 64 eps * max length * (1 + 1/sin alpha) (acute) or (1 + 1/sin^2 alpha) (obtuse)")
             .with_floor(n).require(&["Vec3::slerp_unclamped", "Vec3::slerp", "<Vec3 as Slerp>::slerp_unclamped", "<Vec3 as Slerp>::slerp"]);
         push_sub(&mut rep, run_cases(&cfg, proto, n, |s, i| { slerp_float::<f32>(s, &cfg, i); slerp_float::<f64>(s, &cfg, i); }));
     }
